@@ -98,6 +98,17 @@ def stepPoll (d : DS) (ws : List String) : DS × List String :=
     match n.toNat? with
     | some n => ({ d with s := step (scriptOf d) d.s (.advance n) }, [" ".intercalate ws])
     | none => (d, [" ".intercalate ws, "bad-op"])
+  | "op" :: "startfail" :: k :: rest =>
+    -- allocation number k (0 = the context, 1 = the request's path copy) fails inside uv_fs_poll_start:
+    -- UV_ENOMEM and nothing changes; any other k (or a call that allocates nothing) is the plain start
+    match k.toNat?, parseOp ("start" :: rest) with
+    | some k, some (.start h cb p iv) =>
+      if h ≥ NH || cb ≥ 4 then (d, [" ".intercalate ws, "bad-op"])
+      else if k < 2 && !(d.s.hs h).closing && !(d.s.hs h).active then (d, [" ".intercalate ws, "ret -12 a=0"])
+      else
+        let s' := step (scriptOf d) d.s (.op (.start h cb p iv))
+        ({ d with s := s' }, [" ".intercalate ws] ++ (newLines d.s s').drop 1)
+    | _, _ => (d, [" ".intercalate ws, "bad-op"])
   | "op" :: "release" :: _ => (d, [" ".intercalate ws])
   | ["op", "run"] => (d, ["op run"])
   | ["op", "end"] =>
@@ -159,7 +170,7 @@ def fmtObs : Obs → String
   | .api o => fmtOp o
   | .ret rc a => s!"ret {rc} a={if a then 1 else 0}"
   | .misuse => "misuse"
-  | .addwatch r => s!"addwatch {r}"
+  | .addwatch r => s!"addwatch {r} mask={WATCH_MASK}"
   | .rmwatch wd => s!"rmwatch {wd}"
   | .cb h f name ev => s!"cb h{h} f{f} name={name} ev={ev} st=0"
 
@@ -190,6 +201,19 @@ def stepEv (d : DS) (ws : List String) : DS × List String :=
     | _, _ => (d, [line, "bad-op"])
   | ["op", "run"] => (d, [line])
   | ["op", "end"] => (d, [line, "loopclose 0 open=0"])
+  | "op" :: "startfail" :: k :: rest =>
+    -- the allocation of a new watcher_list (the only one, index 0, after inotify_add_watch) fails:
+    -- the fresh kernel watch is removed again, UV_ENOMEM, nothing else changes
+    match k.toNat?, parseOp ("start" :: rest) with
+    | some k, some (.start h cb wd a) =>
+      if h ≥ 4 || cb ≥ 4 then (d, [line, "bad-op"])
+      else if k = 0 && !(d.s.hs h).closing && !(d.s.hs h).active && wd ≠ 0 && (d.s.lists wd).isNone then
+        ({ d with s := { d.s with inited := true } },
+          [line, s!"addwatch {wd} mask={WATCH_MASK}", s!"rmwatch {wd}", "ret -12 a=0"])
+      else
+        let s' := step (scriptOf d) d.s (.op (.start h cb wd a))
+        ({ d with s := s' }, [line] ++ (newLines d.s s').drop 1)
+    | _, _ => (d, [line, "bad-op"])
   | "op" :: "dispatch" :: recs =>
     let rs := (recs.filter (· ≠ "/")).map parseRec
     if rs.all Option.isSome then
